@@ -192,7 +192,8 @@ static int check_operand_type(struct instr *instr_buffer, char *all_opd,
   case 'y':
   case 'm':
     // get register for memory and non memory operand
-    get_reg_str(all_opd, instr_buffer->opd[opd_pos].str);
+    FAIL_IF_MSG(get_reg_str(all_opd, instr_buffer->opd[opd_pos].str),
+                "register name too long\n");
     if (instr_buffer->opd[opd_pos].type == 'm')
       return mem_tok(instr_buffer, all_opd, opd_pos);
     return EXIT_SUCCESS;
